@@ -1205,12 +1205,12 @@ def run(tier="quick", seed=0):
                             "replace every column (list, container, alternative container, two at once), add_fields typed / "
                             "inferred, 4 round trips; rep = one parameter per class (~28 operations); mini = one per operation (~10)",
         "primary kind schemas [k:int, v:kind] (int float bool Optional[int] str SequenceID List[int] strand DNA nested)":
-            "n=3 and n=0: full x mini, n=1,2: full (depth 1)" if quick else "n=0..3: full x full; n=3, kinds int str SequenceID List[int] strand nested: rep x mini x rep (depth 3)",
+            "int str SequenceID List[int] strand nested: n=3 and n=0: full x mini, n=1,2: full (depth 1); the others as the secondary kinds" if quick else "n=0..3: full x full; n=3, kinds int str SequenceID List[int] strand nested: rep x mini x rep (depth 3)",
         "secondary kind schemas (Union[..,str] List[float] List[bool] quality cigar-op cigar-length BAM-sequence List[str])":
             "n in {1,3}: rep (depth 1), n=0: rep x mini" if quick else "n=0..3: full x rep",
         "wide (10 kinds) / nested-in-nested / single-column": "n=3: rep x mini (singles: rep), n=0,1: rep" if quick else "n=3: full x rep, n=0..2: rep x mini",
         "bionumpy.datatypes (27 classes; 3 genotype-row classes not modelled)":
-            "n=3: rep, n=0: mini (depth 1)" if quick else "n=3: rep x mini, n=0..2: rep",
+            "n=3: rep for 11 classes covering every kind combination, mini for the others; n=0: mini (depth 1)" if quick else "n=3: rep x mini, n=0..2: rep",
         "sampled": "%d random programs of 3 operations (full parameters) per kind / wide / nested schema, n=3, seeded" % (15 if quick else 200),
         "construct": "every schema x n=0..3 x input forms python lists / keyword arguments / library containers / alternative "
                      "containers (tuple, numpy U/S arrays, base-encoded text, list of arrays) / cls.empty(); 12 ill-typed inputs x n in {1,3}; "
@@ -1261,7 +1261,7 @@ def run(tier="quick", seed=0):
     for sch in kind_schemas():
         if not quick:
             plan = [([0, 1, 2, 3], ("full", "full"))] if sch.name in primary else [([0, 1, 2, 3], ("full", "rep"))]
-        elif sch.name in primary:
+        elif sch.name in ("K_int", "K_str", "K_sid", "K_li", "K_strand", "K_nested"):
             plan = [([3, 0], ("full", "mini")), ([1, 2], ("full",))]
         else:
             plan = [([1, 3], ("rep",)), ([0], ("rep", "mini"))]
@@ -1277,7 +1277,9 @@ def run(tier="quick", seed=0):
                                        run_programs(col, sch, [0, 1, 2], ("rep", "mini"))))
     for sch in datatype_schemas():
         if quick:
-            section(sch.name, lambda: (run_programs(col, sch, [3], ("rep",)), run_programs(col, sch, [0], ("mini",))))
+            lvl = "rep" if sch.name in ("Interval", "BedGraph", "Bed6", "Bed12", "SequenceEntryWithQuality", "VCFEntry",
+                                        "VCFEntryWithGenotypes", "BamEntry", "GfaPath", "PairsEntry", "GTFEntry") else "mini"
+            section(sch.name, lambda: (run_programs(col, sch, [3], (lvl,)), run_programs(col, sch, [0], ("mini",))))
         else:
             section(sch.name, lambda: (run_programs(col, sch, [3], ("rep", "mini")),
                                        run_programs(col, sch, [0, 1, 2], ("rep",))))
